@@ -177,6 +177,27 @@ func c06(c *core.Ctx) {
 		c.EndRule()
 	}
 
+	// ---------------------------------------------------------------- R5
+	if c.Rule("R5", "a copy that reports success has copied: in every library function of shape func(out, in) error (Cloner.Copy implementations, the copy closures the adapters build, the default message copy) each possibly-nil return is preceded on all paths by a write of the destination from the source (delegated copy, Unmarshal of the source's bytes, merge, reflect Set), with destination and source in the right positions", 5) {
+		for _, pk := range []string{"inprocgrpc", "internal"} {
+			for _, fn := range p.LibFuncs(pk) {
+				c06CopyWrites(c, fn)
+			}
+		}
+		c.EndRule()
+	}
+
+	// ---------------------------------------------------------------- R6
+	if c.Rule("R6", "a clone is a different object: no library function of shape func(in) (interface{}, error) (Cloner.Clone implementations and the clone closures the adapters build) returns its input, or a re-typing of it, as the clone", 4) {
+		for _, fn := range p.LibFuncs("inprocgrpc") {
+			c06CloneFresh(c, fn)
+		}
+		for _, fn := range p.LibFuncs("internal") {
+			c06CloneFresh(c, fn)
+		}
+		c.EndRule()
+	}
+
 	// ---------------------------------------------------------------- R4
 	if c.Rule("R4", "default cloner: a nil cloner is replaced by the protobuf cloner before any stream object or closure captures it", 2) {
 		for _, ct := range channelTypes(p, "inprocgrpc") {
@@ -682,4 +703,139 @@ func staticReach(p *core.Prog, fn *ssa.Function) map[*ssa.Function]bool {
 		})
 	}
 	return seen
+}
+
+func isAnyType(t types.Type) bool {
+	it, ok := t.Underlying().(*types.Interface)
+	return ok && it.NumMethods() == 0
+}
+
+// copyShape: func(out, in interface{}) error.
+func copyShape(sig *types.Signature) bool {
+	return sig != nil && sig.Params().Len() == 2 && sig.Results().Len() == 1 && isAnyType(sig.Params().At(0).Type()) &&
+		isAnyType(sig.Params().At(1).Type()) && core.IsErrorType(sig.Results().At(0).Type())
+}
+
+// derivedFrom: the values computed from root. strict: only re-typings of the
+// same object (assertions, boxing, reflect.ValueOf/Indirect/Elem), i.e. values
+// through which root's pointee can be written; otherwise any computation that
+// has root (or something derived from it) as an operand.
+func derivedFrom(root ssa.Value, strict bool) map[ssa.Value]bool {
+	set := map[ssa.Value]bool{root: true}
+	work := []ssa.Value{root}
+	add := func(v ssa.Value) {
+		if !set[v] {
+			set[v] = true
+			work = append(work, v)
+		}
+	}
+	for len(work) > 0 {
+		v := work[len(work)-1]
+		work = work[:len(work)-1]
+		for _, r := range core.Refs(v) {
+			switch x := r.(type) {
+			case *ssa.TypeAssert, *ssa.MakeInterface, *ssa.ChangeInterface, *ssa.ChangeType, *ssa.Phi:
+				add(r.(ssa.Value))
+			case *ssa.Extract:
+				add(x)
+			case *ssa.Store:
+				if al, ok := x.Addr.(*ssa.Alloc); ok && x.Val == v {
+					for _, rr := range core.Refs(al) {
+						if u, ok := rr.(*ssa.UnOp); ok && u.Op == token.MUL {
+							add(u)
+						}
+					}
+				}
+			case *ssa.Call:
+				ci := core.InfoOf(&x.Call)
+				if !strict || ci.Is("reflect.ValueOf") || ci.Is("reflect.Indirect") || ci.Is("reflect.Value.Elem") || ci.Is("reflect.Value.Interface") {
+					add(x)
+				}
+			case *ssa.BinOp, *ssa.UnOp, *ssa.Convert, *ssa.Slice, *ssa.Index, *ssa.Field:
+				if !strict {
+					add(r.(ssa.Value))
+				}
+			}
+		}
+	}
+	return set
+}
+
+func c06CopyWrites(c *core.Ctx, fn *ssa.Function) {
+	if !copyShape(fn.Signature) || fn.Blocks == nil {
+		return
+	}
+	np := len(fn.Params)
+	outP, inP := fn.Params[np-2], fn.Params[np-1]
+	outs, ins := derivedFrom(outP, true), derivedFrom(inP, false)
+	key := core.FuncName(fn) + ":success-writes-out"
+	bad := ""
+	writers := map[ssa.Instruction]bool{}
+	core.Instrs(fn, func(in ssa.Instruction) {
+		call, ok := in.(*ssa.Call)
+		if !ok {
+			return
+		}
+		ci := core.InfoOf(&call.Call)
+		args := call.Call.Args
+		var dst, src ssa.Value
+		var sig *types.Signature
+		if call.Call.IsInvoke() {
+			sig, _ = call.Call.Method.Type().(*types.Signature)
+		} else {
+			sig, _ = call.Call.Value.Type().Underlying().(*types.Signature)
+		}
+		switch {
+		case sig != nil && copyShape(sig) && len(args) >= 2:
+			dst, src = args[len(args)-2], args[len(args)-1]
+		case ci.Name == "Unmarshal" && len(args) >= 2:
+			dst, src = args[len(args)-1], args[len(args)-2]
+		case (ci.Name == "TryMerge" || ci.Name == "Merge" || ci.Name == "TryMergeInto" || ci.Name == "MergeInto") && len(args) >= 2:
+			dst, src = args[len(args)-2], args[len(args)-1]
+		case ci.Is("reflect.Value.Set") && len(args) == 2:
+			dst, src = args[0], args[1]
+		default:
+			return
+		}
+		switch {
+		case outs[dst] && ins[src]:
+			writers[in] = true
+		case outs[dst]:
+			bad = fmt.Sprintf("%s writes the destination from a value that does not derive from the source message", ci.Name)
+		case outs[src] && ins[dst]:
+			bad = fmt.Sprintf("%s has destination and source swapped: the caller's source message is overwritten", ci.Name)
+		}
+	})
+	isWriter := func(in ssa.Instruction) bool { return writers[in] }
+	for _, r := range core.Returns(fn) {
+		for _, l := range core.ErrLeaves(r.Results[0], r) {
+			if l.Class == core.ErrNonNil {
+				continue
+			}
+			if !core.MustPass(core.Entry(fn), l.At, isWriter) {
+				bad = "a possibly-nil (success) return is reachable without any write of the destination from the source: the receiver keeps whatever its message held before (stale content on reuse, or an empty message), yet the receive reports success"
+			}
+		}
+	}
+	c.Check(bad == "", key, fn.Pos(), fmt.Sprintf("every possibly-nil return passes a write of out from in (%d writer call(s))", len(writers)), bad)
+}
+
+func c06CloneFresh(c *core.Ctx, fn *ssa.Function) {
+	sig := fn.Signature
+	if fn.Blocks == nil || sig.Params().Len() != 1 || sig.Results().Len() != 2 || !isAnyType(sig.Params().At(0).Type()) ||
+		!isAnyType(sig.Results().At(0).Type()) || !core.IsErrorType(sig.Results().At(1).Type()) {
+		return
+	}
+	inP := fn.Params[len(fn.Params)-1]
+	same := derivedFrom(inP, true)
+	key := core.FuncName(fn) + ":clone-is-fresh"
+	bad := ""
+	for _, r := range core.Returns(fn) {
+		for _, o := range core.Origins(r.Results[0]) {
+			if same[o] {
+				bad = "the input message itself is returned as its clone: what is put into the frame is the sender's own object, shared with the receiver"
+			}
+		}
+	}
+	c.Check(bad == "", key, fn.Pos(), "no return hands back the input object", bad)
 }
